@@ -31,7 +31,7 @@ TG_CONSUMERS = [
     ('typeof-again', 'typeof(T) o17; typeof_unqual(T) o18;'), ('pointer-compat', 'void c19(T *a, typeof(T) *b) { a = b; }'), ('static-local', 'void c20(void) { static T sl; (void)&sl; }'),
     ('function-returning-pointer-to', 'T *c21(T *p) { return p; }'), ('redeclaration', 'extern T o22; extern T o22;'), ('typedef-chain', 'typedef T T2; typedef T2 T3; T3 *o23;'),
     ('auto-object', 'void c24(void) { T al; (void)&al; }'), ('auto-initialised', 'void c25(void) { T ai = {0}; (void)&ai; }'), ('va-arg', 'void c26(int n, ...) { __builtin_va_list ap; __builtin_va_start(ap, n); (void)__builtin_va_arg(ap, T); __builtin_va_end(ap); }'),
-    ('types-compatible', 'int c27 = __builtin_types_compatible_p(T, typeof(T));'), ('array-of-pointers', 'T *o28[3];'), ('function-pointer-parameter', 'void (*o29)(T, T *);'),
+    ('types-compatible', 'int c27 = __builtin_types_compatible_p(T, typeof(T));'), ('array-of-pointers', 'T *o28[3];'), ('pointer-incremented', 'void *c30(T *p) { ++p; p--; return p; }'), ('pointer-subscripted', 'void *c31(T *p) { return &p[2]; }'), ('function-pointer-parameter', 'void (*o29)(T, T *);'),
 ]
 
 
